@@ -988,8 +988,14 @@ Definition ex_acts : list op :=
     OTx ex_alice A_bsei (WCw20 (CIncAllow ex_bob 50 None)) [];
     OTx ex_bob A_bsei (WCw20 (CTransferFrom ex_alice ex_bob 50)) [] ].
 
-Definition ex_w1 : world := run_ops ex_setup (empty_world 50).
-Definition ex_w2 : world := run_ops ex_acts ex_w1.
+(** the reached worlds, in normal form *)
+Definition ex_w1 : world := Eval vm_compute in run_ops ex_setup (empty_world 50).
+Definition ex_w2 : world := Eval vm_compute in run_ops ex_acts ex_w1.
+
+Lemma ex_w1_eq : run_ops ex_setup (empty_world 50) = ex_w1.
+Proof. vm_compute. reflexivity. Qed.
+Lemma ex_w2_eq : run_ops ex_acts ex_w1 = ex_w2.
+Proof. vm_compute. reflexivity. Qed.
 
 Lemma ex_w1_fresh : FreshLedgers ex_w1.
 Proof.
@@ -1012,11 +1018,10 @@ Example example_mirror_nonvacuous :
     ho_bal (holder_of r ex_alice) = 450 /\ ho_bal (holder_of r ex_bob) = 350 /\ rw_total r = 800.
 Proof.
   split; [|split].
-  - apply (always_final Wired ex_acts ex_w1). exact ex_always_wired.
+  - vm_compute. repeat split.
   - pose proof (mirror_from_fresh 50 ex_setup ex_acts) as H. cbv zeta in H.
-    change (run_ops ex_setup (empty_world 50)) with ex_w1 in H.
-    specialize (H ex_w1_fresh ex_always_wired ex_acts_ok).
-    apply always_final in H. exact H.
+    rewrite ex_w1_eq in H. specialize (H ex_w1_fresh ex_always_wired ex_acts_ok).
+    apply always_final in H. rewrite ex_w2_eq in H. exact H.
   - vm_compute. do 2 eexists. repeat split.
 Qed.
 
@@ -1049,16 +1054,17 @@ Qed.
 Example example_genesis_nonvacuous : Mirror (run_ops (ex_setup ++ ex_acts) (empty_world 50)).
 Proof. apply always_final. apply mirror_genesis; [exact ex_genesis_env | exact ex_genesis_ok]. Qed.
 
-(** the hypotheses of [dec_after_debit_succeeds] are satisfiable *)
+(** the hypotheses of [dec_after_debit_succeeds] are satisfiable (with [Wired ex_w2], [Mirror ex_w2]
+    from [example_mirror_nonvacuous]): alice transfers 100 to bob in [ex_w2] *)
 Example example_dec_nonvacuous :
-  exists t r t' more,
-    Wired ex_w2 /\ Mirror ex_w2 /\ w_bsei ex_w2 = Some t /\ w_reward ex_w2 = Some r /\ TInv t /\
-    bsei_execute ex_w2 t ex_alice (CTransfer ex_bob 100) = Some (t', m_dec A_reward ex_alice 100 :: more) /\
-    AccrualFits r ex_alice.
+  forall t r, w_bsei ex_w2 = Some t -> w_reward ex_w2 = Some r ->
+    TInv t /\ AccrualFits r ex_alice /\
+    exists t' more,
+      bsei_execute ex_w2 t ex_alice (CTransfer ex_bob 100) = Some (t', m_dec A_reward ex_alice 100 :: more).
 Proof.
-  destruct example_mirror_nonvacuous as (HW & HM & _).
-  vm_compute. do 4 eexists. split; [exact HW|]. split; [exact HM|].
-  repeat split. eexists. reflexivity.
+  intros t r Et Er. vm_compute in Et, Er. inversion Et; inversion Er; subst t r; clear Et Er.
+  split; [vm_compute; reflexivity|]. split; [eexists; vm_compute; reflexivity|].
+  vm_compute. do 2 eexists. reflexivity.
 Qed.
 
 (** *** necessity of the excluded classes (each is outside the real chain's behaviour:
